@@ -436,7 +436,10 @@ def _do_scanhtml(ctx, case, work):
     return True, f'HTML scan of {case["file"]} ({case["kind"]}) parses and shows the data'
 
 
-DIR_NAMES = ['plain', 'a&b', "q'uote\"s", 'lt<gt>', 'caf\xe9', 'dash--dir', 'x-']
+DIR_NAMES = ['plain', 'a&b', "q'uote\"s", 'lt<gt>', 'caf\xe9', 'dash--dir', 'x-', 'three---h', 'f----r']
+# hyphen runs of every length 1..8 at the start, in the middle and at the end of an output path component
+OUT_NAMES = ['o-ut', 'dash--dir', 'WELL_A---RUN_1', 'd----e', 'a-----b', 'a------b-------c', 'r--------', '-lead', '---lead', 'trail-',
+             'trail---', 'a--b---c', 'o&ut']
 
 
 @_oracle
@@ -449,10 +452,13 @@ def _do_scanhtml_dir(ctx, case, top):
         os.makedirs(os.path.join(top, 'in', name))
         shutil.copy(_abs(f'{DLIS_DIR}/MINIMAL_FILE.dlis'), os.path.join(top, 'in', name, 'MINIMAL_FILE.dlis'))
     try:
-        ScanHTML.scan_dir_or_file(os.path.join(top, 'in'), os.path.join(top, 'out'), True, False, Slice.Sample(8), False)
+        # an output path component without an index.html of its own is quoted in a comment of the top level index
+        # (ScanHTML.py:839 "... without link to absent <path>/index.html"): put the hostile name there too
+        out_root = os.path.join(top, case['outname'], 'out') if case.get('outname') else os.path.join(top, 'out')
+        ScanHTML.scan_dir_or_file(os.path.join(top, 'in'), out_root, True, False, Slice.Sample(8), False)
     except Exception as e:
         return _raised(ctx, 'scanhtml_dir:write', e)
-    pages = [os.path.join(r, f) for r, _d, fs in os.walk(os.path.join(top, 'out')) for f in fs if f.endswith('.html')]
+    pages = [os.path.join(r, f) for r, _d, fs in os.walk(out_root) for f in fs if f.endswith('.html')]
     ok, details = len(pages) >= len(case['dirs']) + 1, []
     if not ok:
         ctx.fail(case, f'only {len(pages)} page(s) written'); details.append('pages missing')
@@ -461,7 +467,7 @@ def _do_scanhtml_dir(ctx, case, top):
         if not res['ok']:
             ok = False
             details.append(_not_wf(ctx, dict(case, page=os.path.relpath(page, top)), res, case['dirs'], case['dirs'])[1])
-        elif os.path.basename(page) == 'index.html' and os.path.dirname(page).endswith('out'):
+        elif os.path.basename(page) == 'index.html' and os.path.dirname(page) == out_root:
             text = ''.join(res['lxml_root'].itertext())
             lost = [n for n in case['dirs'] if n not in text]
             if lost:
@@ -477,6 +483,8 @@ def _run_scanhtml(ctx, cases):
         _do_scanhtml(ctx, dict(case, op='scanhtml'))
     for name in DIR_NAMES:
         _do_scanhtml_dir(ctx, {'op': 'scanhtml_dir', 'dirs': [name] if name == 'plain' else ['plain', name]})
+    for name in OUT_NAMES:
+        _do_scanhtml_dir(ctx, {'op': 'scanhtml_dir', 'dirs': ['plain'], 'outname': name})
 
 
 # ------------------------------------------------------------------ 3. LAS -> HTML
@@ -691,7 +699,8 @@ def _run_lishtml(ctx):
 SVG_TEXT = ['GR', 'DEPT <m>', 'R&D', '"q"', "it's", 'caf\xe9 \xb5 \xb0', 'a\tb', 'l1\nl2', ']]>', '&lt;', '\u2028x', '\x7f',
             '\U0001F6E2']
 SVG_COMMENT = [' curve GR ', 'Output SP   START', ' RHOB/NPHI ', ' a - b ', 'DT.US/F (1)']   # no markup: see report
-SVG_COMMENT_BAD = [' Output C--I START ', 'NPHI-', 'A--', '--', ' DT - ']
+SVG_COMMENT_BAD = [' Output C--I START ', 'NPHI-', 'A--', '--', ' DT - ', '---', ' Output C--- START ', 'GR---X', '----', 'A-----B',
+                   '------', '-------x', 'x--------', '--a---b----', '- -- --- -']
 
 
 def _svg_doc(seed, kind):
@@ -836,12 +845,14 @@ def _run_plot(ctx):
         combos += [(f, False, 4, True) for f in lis]   # this version: 'LASRead' object has no attribute 'hasOutpMnem'.)
     for f, api, lgmin, expect in combos:
         _do_plot(ctx, dict(base, file=f'{LIS_DIR}/{f}', kind='example', api=api, lgmin=lgmin, expect_plots=expect))
-    for i in range(ctx.n(2, 6)):      # a PRES table whose OUTP mnemonic holds '--' (reaches comment()) or markup
+    for i in range(ctx.n(4, 12)):     # a PRES table whose OUTP mnemonic holds '--', '---', '----' (reaches comment()) or markup
         rel = f'{LIS_DIR}/{lis[i % 2]}'
         found = list(_OUTP.finditer(open(_abs(rel), 'rb').read()))
         first_dummy = min(m.start() for m in found if m.group(1) == b'DUMM')
         m = ctx.rng.choice([m for m in found if m.start() < first_dummy])     # the PRES table that is plotted
-        new = m.group(1)[:1] + (b'--' if i % 2 == 0 else ctx.rng.choice([b'<&', b'"\'', b'&-'])) + m.group(1)[3:]
+        mn = m.group(1)
+        new = (ctx.rng.choice([mn[:1] + b'--' + mn[3:], mn[:1] + b'---', b'---' + mn[3:], b'----', mn[:2] + b'--'][i // 2 % 5:][:1])
+               if i % 2 == 0 else mn[:1] + ctx.rng.choice([b'<&', b'"\'', b'&-']) + mn[3:])
         _do_plot(ctx, dict(base, file=rel, kind='outp--' if i % 2 == 0 else 'outp-markup', api=False, lgmin=0, expect_plots=True,
                            edits=[[m.start(1), new.hex()]], injected=[new.decode()]))
 
